@@ -60,6 +60,10 @@ func (s *zzServer) set(k, v string, ttl time.Duration) {
 	e := &zzEntry{val: v}
 	if ttl > 0 {
 		e.hasExp, e.exp = true, time.Now().Add(ttl)
+	} else if ttl == redis.KeepTTL {
+		if old := s.find(k); old != nil {
+			e.hasExp, e.exp = old.hasExp, old.exp
+		}
 	}
 	s.mods[k]++
 	for i, key := range s.keys {
@@ -345,6 +349,23 @@ func zzKVStepRedis() {
 	vers.add("caller-version")
 	vers.add("stale-version")
 	zzKVOp(c, m, vers, keyOf, valOf, expOf)
+	if vParam("LATER") == 1 {
+		// a long time passes (beyond every expiry in play): what Get reports must follow the record's own ExpiresAt -
+		// a record without expiry never disappears, one with an expiry is gone
+		later := int64(1) << 52
+		vAdvanceClock(later)
+		m.now = now.Add(time.Duration(later))
+		for i, key := range m.keys {
+			r, err := c.Get(context.Background(), key)
+			if m.live(i) {
+				vAssert(err == nil, "a record without expiration disappeared as time went by")
+				vAssert(r.Version == m.recs[i].ver && zzExpEq(r.ExpiresAt, m.recs[i].exp), "record changed as time went by")
+			} else {
+				vAssert(zzIsErr(err, errors.ErrNotExist), "a record is still served after its expiration passed")
+			}
+		}
+	}
+	vReach("later-done")
 }
 
 // C03 (redis): keys that differ only in leading slashes are distinct keys of the contract
@@ -414,8 +435,15 @@ func zzC07Redis() {
 	bg := context.Background()
 	present := vBool("present")
 	version := ""
+	expiring := false
 	if present {
-		r, err := c.Put(bg, kvs.Record{Key: "a", Value: []byte{1}})
+		rec := kvs.Record{Key: "a", Value: []byte{1}}
+		if vChoose("withExpiry", 2) == 1 {
+			e := time.Now().Add(time.Hour)
+			rec.ExpiresAt = &e
+			expiring = true
+		}
+		r, err := c.Put(bg, rec)
 		vAssert(err == nil, "Put failed")
 		version = r.Version
 	}
@@ -430,6 +458,10 @@ func zzC07Redis() {
 	ws := make([]*waiter, W)
 	for i := range ws {
 		w := &waiter{ctx: zzNewCtx(), finished: make(chan struct{})}
+		if vChoose("deadline", 2) == 1 {
+			// a context with a deadline shortly ahead that has NOT passed: only its Done/Err say when it ends
+			w.ctx.deadline = time.Now().Add(time.Millisecond)
+		}
 		switch vChoose("wver", 2) {
 		case 0:
 			w.ver = version
@@ -449,14 +481,23 @@ func zzC07Redis() {
 	}
 	S := vParam("S")
 	for step := 0; step < S; step++ {
-		switch vChoose("op", 5) {
+		switch vChoose("op", 6) {
+		case 5:
+			// two hours pass: a record written with a one-hour expiry is gone
+			vAdvanceClock(int64(2 * time.Hour))
+			if present && expiring {
+				for _, w := range ws {
+					w.sawAbsent = true
+				}
+				present = false
+			}
 		case 0:
 			for _, w := range ws {
 				w.sawDifferent = true
 			}
 			r, err := c.Put(bg, kvs.Record{Key: "a", Value: []byte{2}})
 			vAssert(err == nil, "Put failed")
-			present, version = true, r.Version
+			present, version, expiring = true, r.Version, false
 		case 1:
 			if present {
 				for _, w := range ws {
@@ -472,7 +513,7 @@ func zzC07Redis() {
 				}
 			}
 			if ver, err := c.Create(bg, kvs.Record{Key: "a", Value: []byte{3}}); err == nil {
-				present, version = true, ver
+				present, version, expiring = true, ver, false
 			}
 		case 3:
 			w := ws[vChoose("which", W)]
@@ -521,4 +562,26 @@ func zzC07Redis() {
 		}
 	}
 	vReach("all-returned")
+}
+
+// C02/C03 (redis): a large PutMany batch of records without expiry (every size 1..NBIG): every record is stored
+// under a fresh version (implementations that split the batch must not lose the tail)
+func zzRedisBigBatch() {
+	c := zzNewClient()
+	ctx := context.Background()
+	n := vConcrete(vRange("n", 1, vParam("NBIG")))
+	recs := make([]kvs.Record, n)
+	for i := range recs {
+		recs[i] = kvs.Record{Key: "k" + string(rune('0'+i/100)) + string(rune('0'+(i/10)%10)) + string(rune('0'+i%10)), Value: []byte{byte(i)}, Version: "caller-version"}
+	}
+	vAssert(c.PutMany(ctx, recs) == nil, "PutMany failed")
+	vReach("op-done")
+	seen := map[string]bool{"caller-version": true, "": true}
+	for i := range recs {
+		r, err := c.Get(ctx, recs[i].Key)
+		vAssert(err == nil, "a record of a PutMany batch was not stored")
+		vAssert(len(r.Value) == 1 && r.Value[0] == byte(i), "a record of a PutMany batch was stored with another value")
+		vAssert(!seen[r.Version], "PutMany stored a record without a fresh version")
+		seen[r.Version] = true
+	}
 }
